@@ -171,6 +171,7 @@ def run(ctx):
                 ctx.report(r_pair, "%s:format" % fk, "encoder writes text with %s but decoder parses with %s" % (shape_e.get("fmt"), shape_d.get("fmt")), d[0].file, d[0].line)
     ctx.floor(r_pair, pair_fns, 3, "encode_with/decode_with pairs")
 
+    shrink_rule(ctx)
     # file functions
     try:
         tf = syn.fn("to_cbor_file", self_ty="AnnotationStore")
@@ -232,6 +233,51 @@ def run(ctx):
     r_post.hit("tail")
     if tail is None or unparse(tail) != "Ok(%s)" % var:
         ctx.report(r_post, "from_cbor_file:tail", "from_cbor_file must return the decoded store itself", ff.file, ff.line)
+
+
+SHRINK_OK = {"shrink_to_fit", "iter_mut", "into_iter", "next", "as_mut", "deref_mut", "values_mut", "get_mut", "index_mut", "as_mut_slice", "iter", "deref", "as_ref", "borrow_mut", "write", "unwrap", "len", "is_empty", "capacity"}
+
+
+def shrink_rule(ctx):
+    """C11.SHRINK: the post-load compaction only releases spare capacity"""
+    import mirq
+    r = ctx.rule("C11.SHRINK", "everything reachable from AnnotationStore::shrink_to_fit (run after every CBOR load) mutates containers only through shrink_to_fit")
+    prog = mirq.Program(ctx.facts.mir())
+    roots = [b.id for b in prog.find_bodies(r"annotationstore::AnnotationStore::shrink_to_fit$")]
+    if len(roots) != 1:
+        ctx.anchor_missing(r, "AnnotationStore::shrink_to_fit")
+        return
+    reach, parent = prog.reachable(roots)
+    n = 0
+    for bid in sorted(reach):
+        b = prog.bodies[bid]
+        ctx.functions_analysed.add(bid)
+        if not bid.split("::")[-1].startswith("shrink_to_fit") and "{closure" not in bid:
+            ctx.report(r, "reach:" + bid, "shrink_to_fit reaches %s, which is not a shrink_to_fit function" % bid, b.file, b.line)
+        # direct writes to fields
+        for bi, blk in enumerate(b.blocks):
+            for s in blk["s"]:
+                if "rv" in s and any(isinstance(e, dict) and "f" in e for e in s["p"]["p"]):
+                    n += 1
+                    fld = [e.get("n") for e in s["p"]["p"] if isinstance(e, dict) and "f" in e]
+                    r.hit("%s|assign:%s" % (bid, ".".join(str(x) for x in fld)))
+                    ctx.report(r, "%s|assign:%s" % (bid, ".".join(str(x) for x in fld)), "%s assigns field %s during compaction" % (bid, ".".join(str(x) for x in fld)), b.file, s.get("line"))
+        for bi, t in b.calls():
+            decl, res, info = mirq.callee_of(t)
+            if info is None:
+                continue
+            at = t.get("at", [])
+            if not at or not at[0].startswith("&mut "):
+                continue
+            name = decl.split("::")[-1]
+            n += 1
+            r.hit("%s|%s" % (bid, name), sample={"in": bid, "call": decl})
+            if info.get("rlocal") and name.startswith("shrink_to_fit"):
+                continue
+            if name in SHRINK_OK:
+                continue
+            ctx.report(r, "%s|call:%s" % (bid, mirq.short_fn(decl)), "%s calls %s on a mutable container during compaction: only shrink_to_fit may change a loaded store" % (bid, decl), b.file, t.get("line"))
+    ctx.floor(r, n, 20, "mutable calls under shrink_to_fit")
 
 
 def enc_shape(fn):
